@@ -31,11 +31,13 @@ def ops_of(events):
         tag, t = e[0], e[1]
         if tag == '_begin':
             cur[t] = {'t': t, 'req': e[2], 'begin': i, 'end': None, 'calls': 0, 'failed': 0,
-                      'created': [], 'result': None}
+                      'created': [], 'result': None, 'acq': None}
             out.append(cur[t])
         elif t in cur and cur[t]['end'] is None:
             op = cur[t]
-            if tag == 'call':
+            if tag == 'acq' and op['acq'] is None:
+                op['acq'] = i
+            elif tag == 'call':
                 op['calls'] += 1
             elif tag == 'failed':
                 op['failed'] += 1
@@ -124,6 +126,29 @@ def monitor_events(case, obs):
                 out.append(fail('no-cache-recreates',
                                 f'caching disabled but look-up of {op["req"]!r} invoked its creator '
                                 f'{op["calls"]} times', 'no-cache-creator-count'))
+
+    # -- lock and dict instrumented: a look-up belongs to the epoch in which it took the lock (clear
+    #    runs under the same lock, so every look-up is entirely before or entirely after each clear)
+    if not nc:
+        made_at = {e[3]: i for i, e in enumerate(events) if e[0] == 'created'}
+        clear_at = [i for i, e in enumerate(events) if e[0] == 'clear']
+        locked = [op for op in done if op['acq'] is not None and op['result'][0] == 'ret']
+        for op in locked:
+            op['epoch'] = sum(1 for c in clear_at if c < op['acq'])
+            val = op['result'][1]
+            if val in made_at and any(made_at[val] < c < op['acq'] for c in clear_at):
+                out.append(fail('clear-recreates',
+                                f'look-up of {op["req"]!r} by thread {op["t"]} took the lock after a completed '
+                                f'clear and was served object #{val}, which was created before that clear',
+                                'stale-object-after-clear'))
+        for i, a in enumerate(locked):
+            for b in locked[i + 1:]:
+                if item(a['req']) == item(b['req']) and a['epoch'] == b['epoch'] \
+                        and a['result'][1] != b['result'][1]:
+                    out.append(fail('same-object',
+                                    f'look-ups of {a["req"]!r} by threads {a["t"]} and {b["t"]} both took the '
+                                    f'lock after clear #{a["epoch"]} and before the next one, yet got objects '
+                                    f'#{a["result"][1]} and #{b["result"][1]}', 'different-objects-same-epoch'))
 
     for op in done:
         kind, val = op['result']
